@@ -87,70 +87,7 @@ def run(ctx):
                     "the MAC that is verified must be the J field of the first share; it depends on %s" % sorted(src), at,
                     sample=sorted(src))
 
-    # ---- R2: share / verify transcript agreement -----------------------------------------------------
-    engs, rets, sts, frs = ctx.root("adss::Commune::share")
-    engv, retv, stv, frv = ctx.root("adss::Commune::verify")
-    at_s = ctx.fn("adss::Commune::share").loc
-    at_v = ctx.fn("adss::Commune::verify").loc
-    oks = ok_variant(rets, 0)
-    J = None
-    if oks is not None and oks[2][0].op == "agg":
-        J = oks[2][0].args[1 + sJ]
-    ctx.add("C05.R4", "adss::Commune::share#J-is-send_mac", J is not None and J.op == "owf" and J.args[0] == "send_mac",
-            "the J stored in a share must be the unmodified Strobe send_mac output; found %s" % S(J, 3), at_s,
-            sample=S(J, 3))
-    tr_s = Q.trace_of(J.args[1]) if (J is not None and J.op == "owf") else []
-    gv = mac_gate(engv, retv, 0) or []
-    tv = [t for k, t in gv if k == "recv_mac"]
-    tr_v = Q.trace_of(tv[0].args[1]) if tv else []
-    ctx.add("C05.R2", "adss::Commune::verify#uses-recv_mac", bool(tv),
-            "Commune::verify's Ok is not established by Strobe::recv_mac over a transcript", at_v)
-    ctx.extra["share_mac_transcript"] = Q.show_trace(tr_s, 6)
-    ctx.extra["verify_mac_transcript"] = Q.show_trace(tr_v, 6)
-    fs, fv = Q.flat_ops(tr_s), Q.flat_ops(tr_v)
-    # compare all but the final mac operation
-    body_s = [(k, d) for k, d, _ in fs if k not in ("send_mac",)]
-    body_v = [(k, d) for k, d, _ in fv if k not in ("recv_mac",)]
-    agree = len(body_s) == len(body_v) and all(a[0] == b[0] and _same(a[1], b[1]) for a, b in zip(body_s, body_v))
-    first_diff = None
-    for i, (a, b) in enumerate(zip(body_s, body_v)):
-        if not (a[0] == b[0] and _same(a[1], b[1])):
-            first_diff = (i, a[0], S(a[1], 3), b[0], S(b[1], 3))
-            break
-    ctx.add("C05.R2", "adss::Commune::share~verify#agreement", agree,
-            "the MAC transcripts of share and verify differ (first difference %s; lengths %d / %d)"
-            % (first_diff, len(body_s), len(body_v)), at_v,
-            sample={"share": Q.show_trace(tr_s, 4), "verify": Q.show_trace(tr_v, 4)})
-    # coverage and order: threshold encoding, message, coins
-    A_, M_, R_ = "self.%d" % iA, "self.%d" % iM, "self.%d" % iR
-    for side, body, at in (("share", body_s, at_s), ("verify", body_v, at_v)):
-        seq = []
-        for k, d in body:
-            if k in ("ad", "key", "meta_ad"):
-                ps = Q.params(Q.leaves(d))
-                seq.append((k, ps))
-        pos = {}
-        for i, (k, ps) in enumerate(seq):
-            for nm, pre in (("A", A_), ("M", M_), ("R", R_)):
-                if ps and all(p == pre or p.startswith(pre + ".") for p in ps):
-                    pos.setdefault(nm, (i, k))
-        okc = set(pos) == {"A", "M", "R"} and pos["A"][0] < pos["M"][0] < pos["R"][0] and pos["R"][1] == "key"
-        ctx.add("C05.R2", "adss::Commune::%s#covers-A-M-R" % side, okc,
-                "the authenticated transcript of %s must absorb threshold, message (ad) and coins (key) as separate "
-                "operations in this order; found %s" % (side, [(k, sorted(p)) for k, p in seq]), at,
-                sample=[(k, sorted(p)) for k, p in seq])
-        # threshold absorbed at full width
-        thr = [d for k, d in body if k == "ad" and Q.params(Q.leaves(d)) and
-               all(p.startswith(A_) for p in Q.params(Q.leaves(d)))]
-        okw = bool(thr) and all(d.op == "bytes_of" and d.args[1] == 4 for d in thr)
-        ctx.add("C05.R2", "adss::Commune::%s#threshold-full-width" % side, okw,
-                "the threshold must be authenticated as its full 4-byte encoding; found %s" % [S(d, 4) for d in thr], at)
-        # base: custom transcript or the default label
-        base = body[0] if body else None
-        okb = base is not None and (base[0] == "new" or base[0] == "alt")
-        ctx.add("C05.R2", "adss::Commune::%s#base" % side, okb,
-                "the transcript must start from the custom transcript or Strobe::new(\"adss\")", at,
-                sample=S(base[1], 4) if base else None)
+    transcript_agreement(ctx, "C05.R2", "C05.R4")
 
     # ---- R3: single provenance in recover -------------------------------------------------------------
     eng, ret, st, fr = ctx.root("adss::recover")
@@ -212,6 +149,76 @@ def run(ctx):
     ctx.floor("C05.R2", 8)
     ctx.floor("C05.R3", 7)
     ctx.floor("C05.R4", 1)
+
+
+def transcript_agreement(ctx, rule, rule4):
+    iA, iM, iR, iT = (fidx(ctx, C, n) for n in ("A", "M", "R", "T"))
+    sA, sS, sC, sD, sJ = (fidx(ctx, SH, n) for n in ("A", "S", "C", "D", "J"))
+    # ---- R2: share / verify transcript agreement -----------------------------------------------------
+    engs, rets, sts, frs = ctx.root("adss::Commune::share")
+    engv, retv, stv, frv = ctx.root("adss::Commune::verify")
+    at_s = ctx.fn("adss::Commune::share").loc
+    at_v = ctx.fn("adss::Commune::verify").loc
+    oks = ok_variant(rets, 0)
+    J = None
+    if oks is not None and oks[2][0].op == "agg":
+        J = oks[2][0].args[1 + sJ]
+    ctx.add(rule4, "adss::Commune::share#J-is-send_mac", J is not None and J.op == "owf" and J.args[0] == "send_mac",
+            "the J stored in a share must be the unmodified Strobe send_mac output; found %s" % S(J, 3), at_s,
+            sample=S(J, 3))
+    tr_s = Q.trace_of(J.args[1]) if (J is not None and J.op == "owf") else []
+    gv = mac_gate(engv, retv, 0) or []
+    tv = [t for k, t in gv if k == "recv_mac"]
+    tr_v = Q.trace_of(tv[0].args[1]) if tv else []
+    ctx.add(rule, "adss::Commune::verify#uses-recv_mac", bool(tv),
+            "Commune::verify's Ok is not established by Strobe::recv_mac over a transcript", at_v)
+    ctx.extra["share_mac_transcript"] = Q.show_trace(tr_s, 6)
+    ctx.extra["verify_mac_transcript"] = Q.show_trace(tr_v, 6)
+    fs, fv = Q.flat_ops(tr_s), Q.flat_ops(tr_v)
+    # compare all but the final mac operation
+    body_s = [(k, d) for k, d, _ in fs if k not in ("send_mac",)]
+    body_v = [(k, d) for k, d, _ in fv if k not in ("recv_mac",)]
+    agree = len(body_s) == len(body_v) and all(a[0] == b[0] and _same(a[1], b[1]) for a, b in zip(body_s, body_v))
+    first_diff = None
+    for i, (a, b) in enumerate(zip(body_s, body_v)):
+        if not (a[0] == b[0] and _same(a[1], b[1])):
+            first_diff = (i, a[0], S(a[1], 3), b[0], S(b[1], 3))
+            break
+    ctx.add(rule, "adss::Commune::share~verify#agreement", agree,
+            "the MAC transcripts of share and verify differ (first difference %s; lengths %d / %d)"
+            % (first_diff, len(body_s), len(body_v)), at_v,
+            sample={"share": Q.show_trace(tr_s, 4), "verify": Q.show_trace(tr_v, 4)})
+    # coverage and order: threshold encoding, message, coins
+    A_, M_, R_ = "self.%d" % iA, "self.%d" % iM, "self.%d" % iR
+    for side, body, at in (("share", body_s, at_s), ("verify", body_v, at_v)):
+        seq = []
+        for k, d in body:
+            if k in ("ad", "key", "meta_ad"):
+                ps = Q.params(Q.leaves(d))
+                seq.append((k, ps))
+        pos = {}
+        for i, (k, ps) in enumerate(seq):
+            for nm, pre in (("A", A_), ("M", M_), ("R", R_)):
+                if ps and all(p == pre or p.startswith(pre + ".") for p in ps):
+                    pos.setdefault(nm, (i, k))
+        okc = set(pos) == {"A", "M", "R"} and pos["A"][0] < pos["M"][0] < pos["R"][0] and pos["R"][1] == "key"
+        ctx.add(rule, "adss::Commune::%s#covers-A-M-R" % side, okc,
+                "the authenticated transcript of %s must absorb threshold, message (ad) and coins (key) as separate "
+                "operations in this order; found %s" % (side, [(k, sorted(p)) for k, p in seq]), at,
+                sample=[(k, sorted(p)) for k, p in seq])
+        # threshold absorbed at full width
+        thr = [d for k, d in body if k == "ad" and Q.params(Q.leaves(d)) and
+               all(p.startswith(A_) for p in Q.params(Q.leaves(d)))]
+        okw = bool(thr) and all(d.op == "bytes_of" and d.args[1] == 4 for d in thr)
+        ctx.add(rule, "adss::Commune::%s#threshold-full-width" % side, okw,
+                "the threshold must be authenticated as its full 4-byte encoding; found %s" % [S(d, 4) for d in thr], at)
+        # base: custom transcript or the default label
+        base = body[0] if body else None
+        okb = base is not None and (base[0] == "new" or base[0] == "alt")
+        ctx.add(rule, "adss::Commune::%s#base" % side, okb,
+                "the transcript must start from the custom transcript or Strobe::new(\"adss\")", at,
+                sample=S(base[1], 4) if base else None)
+
 
 
 def _same(a, b):
